@@ -11,6 +11,10 @@ CLAIMED["C03"] = ("reference-model monitor: op[index] and diagonal() for index t
                   "runtime monitoring: reference-model monitor (torch indexing of the dense denotation) with case shrinking")
 CLAIMED["C17"] = ("history checker: random well-nested construct/enter/exit/exception-exit histories over every settings class; after every event the public value of every setting is compared with a scoped-stack model, and a computation outside the block is compared before/after; every other property's worker additionally asserts 'all settings at defaults' after each case",
                   "runtime monitoring: event-history checker against a scoped-stack model of the settings")
+CLAIMED["C16"] = ("reference-model monitor: psd_safe_cholesky (function, settings-supplied parameters, DenseLinearOperator.cholesky) on PD / singular / indefinite / NaN matrices in mixed batches; per member the observed perturbation L L^T - A must be delta*I with delta the minimal jitter level of an independent single-member loop; warning / NanError / NotPSDError exactly when expected; input version counter and bytes unchanged",
+                  "runtime monitoring: per-member perturbation oracle (L L^T - A = delta I, delta minimal) with exception/warning outcome monitor")
+CLAIMED["C20"] = ("reference-model monitor: every kernel of utils.toeplitz / interpolation / sparse / permutation / qr / pinverse and dsmm (+ gradient) on seeded inputs over its documented domain, compared with its dense definition in plain torch",
+                  "runtime monitoring: reference-model monitor (dense definitions) over generated inputs")
 PENDING = {}
 def main():
     hooks_commits = []
